@@ -99,7 +99,10 @@ def _systems(draw):
         for _ in range(nobs):
             m = draw(st.integers(1, 4))
             obs.append({"h": mat(m, n), "hs": [draw(st.floats(0.1, 10.0)) for _ in range(min(m, n))], "r": spd(m),
-                        "innov": [draw(st.floats(-3, 3)) for _ in range(m)]})
+                        "innov": [draw(st.floats(-3, 3)) for _ in range(m)],
+                        # measurement unit of this observation (km vs m vs micro-radian-like): rescales H, z and R consistently, which
+                        # leaves the Kalman update unchanged but makes the stacked innovation covariance badly scaled (cond up to 1e24)
+                        "unit": draw(st.sampled_from([1.0, 1.0, 1.0, 1e-3, 1e3, 1e-6]))})
         steps.append(obs)
     return {"n": n, "f": f, "p": spd(n), "qn": spd(n), "x0": [draw(st.floats(-100, 100)) for _ in range(n)],
             "alpha": alpha, "beta": beta, "kappa": kappa, "resample": draw(st.sampled_from([True, True, False])), "steps": steps}
@@ -196,9 +199,12 @@ def linear_kalman(c, rec):
         z = h @ xb + innov
         observations = []
         i0 = 0
-        for hj, rj in zip(hs, rs):
-            observations.append(_Obs(hj, rj, z[i0:i0 + hj.shape[0]]))
+        units = [float(o.get("unit", 1.0)) for o in obs_specs]
+        for hj, rj, lam in zip(hs, rs, units):
+            observations.append(_Obs(lam * hj, lam * lam * rj, lam * z[i0:i0 + hj.shape[0]]))
             i0 += hj.shape[0]
+        if len(set(units)) > 1:
+            rec.label("mixed_measurement_units")
         ukf.update(observations)
         x_ref = xb + gain @ innov
         p_ref = pb - gain @ s @ gain.T
